@@ -131,6 +131,11 @@ def run(ctx, rep) -> None:
                     rep.check(ok, "C18.R3", f"{name}: store at {parts[-1]}", "stored stage was read inside the retried closure" if ok else f"stage read at [{fresh}] is stored from [{'>'.join(parts)}]: a lost CAS would re-apply stale state",
                               e.site[0], e.site[1], disc=f"{name}:{parts[-1]}")
     rep.floor("transactional stores of the own stage in SignalStage / RunTask", n3, 4)
+    # deliver-or-buffer is decided on the status of the very copy that is written (shared rule, sa/rules/c07.py)
+    from .c07 import decision_read_rule
+    nd = decision_read_rule(ctx, rep, "C18.R3", ("stabilize.handlers.signal_stage", "stabilize.handlers.run_task"))
+    if not nd:
+        rep.ok("C18.R3", "no signal / suspend write on a re-read copy", "no stage variable is re-read between its status test and its store in signal_stage / run_task", "src/stabilize/handlers/signal_stage.py", 0)
 
     # ---- R4 --------------------------------------------------------------------------------------
     sites = key_sites(prog, "_buffered_signals")
@@ -155,6 +160,8 @@ def run(ctx, rep) -> None:
               "the overlay rebuilds list values that exist only in the stage's own context: equal entries of `_buffered_signals` (two identical persistent signals) collapse into one and a signal is lost",
               "src/stabilize/handlers/start_stage/planner.py", loop[0].lineno if loop else pl.lineno, disc="plan-verbatim")
 
+    _r6_entry_points(ctx, rep)
+
     # ---- R5: the resume message is not mistaken for a duplicate ---------------------------------------------------------
     # RunTask keeps an in-process registry of executing task ids and drops a RunTask for a registered task. The entry is removed
     # only after the result was committed - and that commit already contains the resume RunTask of a consumed signal. Dropping
@@ -177,3 +184,96 @@ def run(ctx, rep) -> None:
                   "every RunTask for a task id registered in _executing_tasks is dropped (return => marked processed and acked). The registry entry outlives the commit that pushes the resume RunTask of a consumed "
                   "persistent signal, so another worker thread polling that resume inside the window discards it: the stage stays RUNNING/SUSPENDED with an empty queue and the signal's resume is lost",
                   rh.file, r_.lineno, disc="resume-dropped-as-duplicate")
+
+
+# ---- R6: the API entry points send persistent signals --------------------------------------------------------------------
+def _param_default(fn: ast.FunctionDef, name: str):
+    a = fn.args
+    pos = list(a.posonlyargs) + list(a.args)
+    for p_, d_ in zip(pos[len(pos) - len(a.defaults):], a.defaults):
+        if p_.arg == name:
+            return d_
+    for p_, d_ in zip(a.kwonlyargs, a.kw_defaults):
+        if p_.arg == name:
+            return d_
+    if any(p_.arg == name for p_ in pos + list(a.kwonlyargs)):
+        return "required"
+    return None
+
+
+def _r6_entry_points(ctx, rep) -> None:
+    """`persistent` as it reaches the SignalStage message when a HITL entry point is called with its defaults.
+    Resolved through the module's own call chain: explicit keyword -> constant / parameter (-> its default / the argument the
+    module-internal caller passes); keyword omitted -> the dataclass default of SignalStage.persistent."""
+    prog = ctx.prog
+    rep.rule("C18.R6", "every public entry point of stabilize.hitl that sends a SignalStage sends it persistent when called with its defaults (an approval given before the gate suspends is buffered, not dropped)")
+    msg = prog.cls("stabilize.queue.messages", "SignalStage")
+    dc_default = None
+    for st in msg.node.body:
+        if isinstance(st, ast.AnnAssign) and isinstance(st.target, ast.Name) and st.target.id == "persistent":
+            dc_default = st.value.value if isinstance(st.value, ast.Constant) else None
+    if dc_default is None:
+        raise AnalysisError("SignalStage.persistent: dataclass field with a constant default not found")
+    hm = prog.modules.get("stabilize.hitl")
+    if hm is None:
+        raise AnalysisError("module stabilize.hitl not found")
+    fns = {n: f for n, f in hm.functions.items()}
+
+    def effective(fname: str, bindings: dict, depth: int = 0) -> list:
+        """[(value, site)] for every SignalStage sent (directly or through module functions) by fname under `bindings`
+        (parameter -> constant | 'unknown'); parameters not bound take their default"""
+        if depth > 4 or fname not in fns:
+            return []
+        fn = fns[fname].node
+
+        def val(e):
+            if e is None:
+                return "unknown"
+            if isinstance(e, ast.Constant):
+                return e.value
+            if isinstance(e, ast.Name):
+                if e.id in bindings:
+                    return bindings[e.id]
+                d = _param_default(fn, e.id)
+                if isinstance(d, ast.Constant):
+                    return d.value
+                return "unknown"
+            return "unknown"
+
+        out = []
+        for c in ast.walk(fn):
+            if not isinstance(c, ast.Call):
+                continue
+            callee = norm(c.func).split(".")[-1]
+            if callee == "SignalStage":
+                kw = {k.arg: k.value for k in c.keywords if k.arg}
+                if any(k.arg is None for k in c.keywords):
+                    out.append(("unknown", c.lineno))
+                elif "persistent" in kw:
+                    out.append((val(kw["persistent"]), c.lineno))
+                else:
+                    out.append((dc_default, c.lineno))
+            elif isinstance(c.func, ast.Name) and callee in fns and callee != fname:
+                g = fns[callee].node
+                a = g.args
+                pos = [p_.arg for p_ in list(a.posonlyargs) + list(a.args)]
+                b = {}
+                for i, arg in enumerate(c.args):
+                    if i < len(pos):
+                        b[pos[i]] = val(arg)
+                for k in c.keywords:
+                    if k.arg:
+                        b[k.arg] = val(k.value)
+                out += effective(callee, b, depth + 1)
+        return out
+
+    n = 0
+    for name, f in sorted(fns.items()):
+        if name.startswith("_"):
+            continue
+        sent = effective(name, {})
+        for v, line in sent:
+            n += 1
+            rep.check(v is True, "C18.R6", f"hitl.{name}: SignalStage sent with defaults is persistent", f"persistent = {v!r} (message built at line {line}; SignalStage.persistent defaults to {dc_default!r})" + ("" if v is True else
+                      ": a decision handled before the gate's suspend is durable is dropped as a transient signal and the gate then waits forever"), f.file, f.node.lineno, disc=f"entry:{name}")
+    rep.floor("HITL entry points that send SignalStage", n, 3)
